@@ -296,6 +296,10 @@ def main(tier, replay, t0):
         memcheck = run_memcheck(binp, corpus, work)
         for sig, txt in (memcheck.get("reports") or {}).items():
             viol.append(Violation("memcheck-report", sig, txt[:600], {"log": txt[:4000]}))
+        bad_rc = [c for c in memcheck.get("exit_codes", []) if c not in ("0", "timeout")]
+        if bad_rc and not memcheck.get("reports"):
+            viol.append(Violation("memcheck-crash", ",".join(bad_rc), "the campaign died under "
+                                  "valgrind with exit codes %s" % bad_rc, {}))
         asan = run_asan(corpus, work)
         if asan["reports"]:
             for sig, txt in asan["reports"].items():
